@@ -27,8 +27,10 @@ RULE = ("Case = scene-free Plasma (1-4 distinct ion species with Z>=1 drawn from
         "int, un-normalised or axis-aligned direction, density from the Python attenuator mock: zero / uniform / "
         "Gaussian-exponential, beam point inside, on or outside 0<=z<=length) x atomic data mock (1-4 donor metastables "
         "returned in a drawn order, optionally the same list object on every request; every rate a distinct power-law-like "
-        "function of all its arguments, selected by a seed; classes with a zero ground / excited coefficient, zero "
-        "populations, a zero BES coefficient, argument-independent coefficients) x receiver line / Balmer-alpha x spectral "
+        "function of all its arguments, selected by a seed; exactly-zero coefficients - as a function returning 0 "
+        "or as the provider's null rate object - assigned per (family, key) to a drawn subset (none / some / all-but-one / "
+        "all) of the CX metastables, of the (metastable, ion species) population coefficients and of the BES target species; "
+        "argument-independent coefficients) x receiver line / Balmer-alpha x spectral "
         "window (1..40 bins, +-6..10 %). Forms: profiles as Python callables, plain floats, raysect Function3D expressions; "
         "flows as Vector3D / callable / vector function; model wired by constructor keywords, by the beam/plasma/atomic_data "
         "setters, or by beam.models = [...] (arguments omitted); CX line-shape class omitted / GaussianLine / ZeemanTriplet / "
@@ -67,13 +69,15 @@ TOLERANCES = {
 _CX_SHAPES = ["default", "gaussian", "zeeman", "zeeman-args", "zeeman-kwargs", "pzeeman-args", "multiplet-args", "multiplet-kwargs"]
 REQUIRED_LABELS = (["cx:zero:beam", "cx:zero:receiver", "cx:meta:1", "cx:meta:2", "cx:meta:3", "cx:meta:4", "cx:order:shuffled",
                     "cx:neutrals", "cx:nt", "cx:op:line", "cx:op:energy", "cx:steps:1", "cx:steps:>=3", "cx:repeat",
-                    "cx:flows:equal", "cx:flows:comoving", "cx:rates:q1=0", "cx:rates:qm=0", "cx:rates:pop=0", "cx:rates:const",
+                    "cx:flows:equal", "cx:flows:comoving", "cx:rates:const", "cx:zeros:cx:some", "cx:zeros:cx:all-but-one", "cx:zeros:cx:all", "cx:zeros:cx:ground",
+                    "cx:zeros:pop:some", "cx:zeros:pop:all-but-one", "cx:zeros:pop:all", "cx:zeros:pop:partial-live", "cx:zeros:null-object",
                     "cx:provider:cached-lists", "cx:E:int", "cx:E:0", "cx:isotope-receiver"]
                    + ["cx:ls:" + x for x in _CX_SHAPES]
                    + ["%s:wire:%s" % (s, w) for s in ("cx", "bes") for w in ("ctor", "setters", "beam.models")]
                    + ["%s:form:%s" % (s, f) for s in ("cx", "bes") for f in ("callable", "float", "function3d", "v:vector", "v:callable", "v:function")]
                    + ["bes:zero:beam", "bes:zero:ions", "bes:neutrals", "bes:nt", "bes:Z>=2", "bes:op:line", "bes:op:energy",
-                      "bes:steps:1", "bes:steps:>=3", "bes:repeat", "bes:flows:equal", "bes:flows:comoving", "bes:rates:one=0",
+                      "bes:steps:1", "bes:steps:>=3", "bes:repeat", "bes:flows:equal", "bes:flows:comoving", "bes:zeros:bes:some", "bes:zeros:bes:all-but-one", "bes:zeros:bes:all", "bes:zeros:bes:partial-live",
+                      "bes:zeros:null-object",
                       "bes:rates:const", "bes:ratios:default", "bes:ratios:floats", "bes:ratios:callables", "bes:E:int", "bes:E:0"]
                    + ["%s:%s" % (s, x) for s in ("cx", "bes") for x in
                       ("interference:A-B-A", "interference:B-first", "interference:same-line", "interference:B-more-species",
@@ -257,6 +261,48 @@ def _steps(draw, case, cx):
     return steps
 
 
+def _subset(draw, items):
+    """a drawn subset of items: none (common) / some / all-but-one / all"""
+    cls = draw(_rare([(0.1, "some"), (0.08, "all-but-one"), (0.07, "all")]))
+    items = list(items)
+    if cls is None or not items:
+        return []
+    if cls == "all":
+        return items
+    if cls == "all-but-one":
+        j = draw(st.integers(0, len(items) - 1))
+        return items[:j] + items[j + 1:]
+    pick = [x for x in items if draw(st.booleans())]
+    return pick or [items[draw(st.integers(0, len(items) - 1))]]
+
+
+def _zero_sets(draw, case, cx):
+    """Coefficients that are exactly zero, per (family, key), for a drawn SUBSET of the species / metastables - either as
+    a function returning 0.0 or as the provider's null rate object (non-negative tables, null rates: both in the quantifier)."""
+    sp = case["plasma"]["species"]
+    ions = [(x["el"], x["q"]) for x in sp if x["q"] >= 1]
+    donor = case["beam"]["el"]
+    keys = []
+    if cx:
+        nmeta = case["rates"]["metastables"]
+        r = sp[case["recv"]]
+        lines = [(r["el"], r["q"], case["transition"])] + [(sp[x["recv"]]["el"], sp[x["recv"]]["q"], x["transition"])
+                                                           for x in case.get("steps", []) if x.get("op") == "line" and "recv" in x]
+        for m in _subset(draw, range(1, nmeta + 1)):
+            keys += ["cx|" + BeamRates.cx_key(donor, m, el, q, tr) for el, q, tr in lines]
+        for m in range(2, nmeta + 1):
+            keys += ["pop|" + BeamRates.pop_key(donor, m, el, q) for el, q in _subset(draw, ions)]
+    else:
+        keys += ["bes|" + BeamRates.bes_key(donor, el, q, (3, 2)) for el, q in _subset(draw, ions)]
+    zero, null = [], []
+    for k in keys:
+        (null if draw(st.booleans()) else zero).append(k)
+    if zero:
+        case["rates"]["zero"] = zero
+    if null:
+        case["rates"]["null"] = null
+
+
 def _variant(draw, case, cx):
     """Parameters of a SECOND instance B of the same class: same way of construction (wiring, option forms, defaults left
     to default), mostly the same keys (species list, line, beam element), but other rate functions (provider seed),
@@ -310,6 +356,7 @@ def _variant(draw, case, cx):
     elif op == "energy":
         st1["op"], st1["E"] = "energy", draw(_energy())
     o["steps"] = [st1]
+    _zero_sets(draw, o, cx)
     return o
 
 
@@ -329,28 +376,19 @@ def strategy_cx():
                        "offs": [draw(st.floats(-5e-3, 5e-3)) for _ in range(3)],
                        "ratios": draw(st.sampled_from([[1.0], [0.5, 0.5], [0.5, 0.25, 0.25], [0.125, 0.75, 0.125]]))}
         case["steps"] = _steps(draw, case, True)
-        # rate tables with zeros / without argument dependence (non-negative tables are in the quantifier)
+        # coefficients without argument dependence; zero / null coefficients for drawn subsets of the keys
         nmeta = case["rates"]["metastables"]
         donor = case["beam"]["el"]
-        kind = draw(_rare([(0.07, "q1=0"), (0.07, "qm=0"), (0.07, "pop=0"), (0.06, "const")]))
-        ov = {}
-        lines = [(sp[r]["el"], sp[r]["q"], case["transition"])] + [(sp[x["recv"]]["el"], sp[x["recv"]]["q"], x["transition"])
-                                                                  for x in case["steps"] if x.get("op") == "line"]
-        for el, q, tr in lines:
-            if kind == "q1=0":
-                ov["cx|" + BeamRates.cx_key(donor, 1, el, q, tr)] = {"q0": 0.0, "p": [0.5] * 5}
-            elif kind == "qm=0" and nmeta >= 2:
-                ov["cx|" + BeamRates.cx_key(donor, 2, el, q, tr)] = {"q0": 0.0, "p": [0.5] * 5}
-            elif kind == "const":
+        if draw(_rare([(0.06, "const")])):
+            ov = {}
+            lines = [(sp[r]["el"], sp[r]["q"], case["transition"])] + [(sp[x["recv"]]["el"], sp[x["recv"]]["q"], x["transition"])
+                                                                      for x in case["steps"] if x.get("op") == "line"]
+            for el, q, tr in lines:
                 for m in range(1, nmeta + 1):
                     ov["cx|" + BeamRates.cx_key(donor, m, el, q, tr)] = {"q0": 1e-33 * (1 + 0.5 * m), "p": [0.0] * 5}
-        if kind == "pop=0" and nmeta >= 2:
-            for x in sp:
-                if x["q"] >= 1:
-                    ov["pop|" + BeamRates.pop_key(donor, 2, x["el"], x["q"])] = {"q0": 0.0, "p": [0.5] * 3}
-        if ov:
             case["rates"]["override"] = ov
-            case["rates_class"] = kind
+            case["rates_class"] = "const"
+        _zero_sets(draw, case, True)
         case["other"] = _variant(draw, case, True)
         case["interf"] = draw(st.sampled_from(["A-B-A", "B-first"]))
         return case
@@ -367,18 +405,12 @@ def strategy_bes():
         case["steps"] = _steps(draw, case, False)
         case["ratios"] = draw(st.sampled_from(["default", "floats", "callables"]))
         case["ratio_values"] = [draw(st.floats(0.1, 2.0)) for _ in range(4)]
-        kind = draw(_rare([(0.1, "one=0"), (0.06, "const")]))
         bel = case["beam"]["el"]
-        ov = {}
-        if kind == "one=0":
-            x = sp[draw(st.sampled_from(ions))]
-            ov["bes|" + BeamRates.bes_key(bel, x["el"], x["q"], (3, 2))] = {"q0": 0.0, "p": [0.5] * 3}
-        elif kind == "const":
-            for i in ions:
-                ov["bes|" + BeamRates.bes_key(bel, sp[i]["el"], sp[i]["q"], (3, 2))] = {"q0": 1e-34 * (1 + i), "p": [0.0] * 3}
-        if ov:
-            case["rates"]["override"] = ov
-            case["rates_class"] = kind
+        if draw(_rare([(0.06, "const")])):
+            case["rates"]["override"] = {"bes|" + BeamRates.bes_key(bel, sp[i]["el"], sp[i]["q"], (3, 2)): {"q0": 1e-34 * (1 + i), "p": [0.0] * 3}
+                                         for i in ions}
+            case["rates_class"] = "const"
+        _zero_sets(draw, case, False)
         case["other"] = _variant(draw, case, False)
         case["interf"] = draw(st.sampled_from(["A-B-A", "B-first"]))
         return case
@@ -719,10 +751,51 @@ class Subject:
             ctx.label("ratios:" + case["ratios"])
         if "rates_class" in case:
             ctx.label("rates:" + case["rates_class"])
+        self._zero_labels()
         if any(x["q"] == 0 for x in self.sp):
             ctx.label("neutrals")
         if isinstance(case["beam"]["E"], int):
             ctx.label("E:0" if case["beam"]["E"] == 0 else "E:int")
+
+    def _zero_labels(self):
+        """which subset of each family's keys carries an exactly-zero coefficient (function or null object)"""
+        case, ctx, r = self.case, self.ctx, self.rates
+        dead = r.zero | r.null
+        if r.null:
+            ctx.label("zeros:null-object")
+        ions = [x for x in self.sp if x["q"] >= 1]
+        donor = case["beam"]["el"]
+
+        def cls(fam, k, n):
+            if k == 0:
+                return
+            if k == n:
+                ctx.label("zeros:%s:all" % fam)
+            if n >= 2 and k == n - 1:
+                ctx.label("zeros:%s:all-but-one" % fam)
+            if 0 < k < n:
+                ctx.label("zeros:%s:some" % fam)
+        if self.kind == "cx":
+            x = self.sp[case["recv"]]
+            zm = [m for m in range(1, self.nmeta + 1)
+                  if "cx|" + BeamRates.cx_key(donor, m, x["el"], x["q"], case["transition"]) in dead]
+            cls("cx", len(zm), self.nmeta)
+            if 1 in zm and self.nmeta >= 2:
+                ctx.label("zeros:cx:ground")
+            live = [y for y in ions if y["n"] > 0]
+            for m in range(2, self.nmeta + 1):
+                k = sum(1 for y in ions if "pop|" + BeamRates.pop_key(donor, m, y["el"], y["q"]) in dead)
+                cls("pop", k, len(ions))
+                kl = sum(1 for y in live if "pop|" + BeamRates.pop_key(donor, m, y["el"], y["q"]) in dead)
+                if 0 < kl < len(live):
+                    ctx.label("zeros:pop:partial-live")       # zero for some but not all species present at the point
+        else:
+            k = sum(1 for y in ions if "bes|" + BeamRates.bes_key(donor, y["el"], y["q"], (3, 2)) in dead)
+            cls("bes", k, len(ions))
+            live = [y for y in ions if y["n"] > 0]
+            kl = sum(1 for y in live if "bes|" + BeamRates.bes_key(donor, y["el"], y["q"], (3, 2)) in dead)
+            if 0 < kl < len(live):
+                ctx.label("zeros:bes:partial-live")
 
     def line_of(self, ev):
         """a fresh Line object for the evaluation (equal to the current one unless a step changes it) and its wavelength"""
